@@ -14,6 +14,12 @@ Inductive case :=
   | KEnumToIndex (l : list member)        (* _utils._enum_to_index(l) *)
   | KArgsort (e : enum)                   (* numpy.argsort(E.names) *)
   | KSearch (e : enum) (s : string)       (* numpy.searchsorted(E.names, s, sorter=argsort) *)
+  | KViews (e : enum) (x : input) (sel : list (list nat))
+                                          (* a = E.encode(x), decoded both ways; then parts and reorderings of a
+                                             (slices, masks, fancy indexing, copies: each given by the positions
+                                             of a it keeps, in order), each decoded both ways; then a again.
+                                             The model has no state: the decoding of a part is the decoding of
+                                             the indices at those positions *)
   | KMulti (l : list (enum * input)).     (* the KRound operation on several enumerations that share their
                                              class name, one after the other in one process; the model has
                                              no state: every step is answered by its own enumeration *)
@@ -30,10 +36,22 @@ Definition round_obs (e : enum) (x : input) : obs :=
                 ores (fun b => ozs (indices b)) (encode e (Encoded a))]
   end.
 
+Definition decode_obs (a : enum_array) : obs :=
+  OL [ozs (indices a); ores (olist omember) (decode a); ores (olist OS) (decode_to_str a)].
+
+Definition take (l : list Z) (ps : list nat) : list Z := map (fun p => nth p l (-1)) ps.
+
 Definition run (c : case) : obs :=
   match c with
   | KEncode e x => ores (fun a => ozs (indices a)) (encode e x)
   | KRound e x => round_obs e x
+  | KViews e x sel =>
+      match encode e x with
+      | Err k => OErr k
+      | Ok a => OL (decode_obs a
+                    :: map (fun ps => decode_obs (mkArr (possible_values a) (take (indices a) ps))) sel
+                    ++ [decode_obs a])
+      end
   | KMulti l => OL (map (fun p => round_obs (fst p) (snd p)) l)
   | KDecode a => OL [ores (olist omember) (decode a); ores (olist OS) (decode_to_str a)]
   | KIntToIndex e l => ozs (int_to_index e l)
